@@ -313,6 +313,27 @@ def gen_held_bursts(v, rng, n=2000):
     return cases
 
 
+def gen_session_expiry(v, rng):
+    """MQTT 5 servers: DISCONNECT with / without a Session Expiry Interval on sessions whose CONNECT asked for expiry
+    0 or 60 s (configuration field 5) [MQTT-3.14.2-22], alone and behind running handlers / control calls"""
+    if v != 5:
+        return []
+    cases = []
+    for sexp in (0, 1):
+        for mode in (0, 1):
+            cfg = (2, 0, 3, 0, mode, sexp)
+            for reason in (0, 4, 128):
+                for se in (0, 7, 30):
+                    d = (1, 9, reason, se)
+                    cases.append(fmt(cfg, [d]))
+                    cases.append(fmt(cfg, [d, (1, 8)]))
+                    cases.append(fmt(cfg, [pub(1, 1, 1), d, (2, 1, 0)]))
+                    cases.append(fmt(cfg, [pub(2, 1, 1), (2, 1, 0), d, (1, 4, 1)]))
+                    cases.append(fmt(cfg, [(1, 8), d, (3, 1, 0), (3, 2, 0)]))
+                    cases.append(fmt(cfg, [d, d]))
+    return cases
+
+
 def gen_outcomes(v, rng):
     cases = []
     results = [0, 1, 2, 16, 128, 131, 135, 144, 145, 151, 153, 129, 255] if v == 5 else [0, 1, 7]
@@ -584,6 +605,8 @@ def generate(v, rng, scale=1.0, role="server"):
     cases += gen_aliases(v, rng, int(3000 * scale))
     cases += gen_bursts(v, rng, int(3000 * scale))
     cases += gen_outcomes(v, rng)
+    if role == "server":
+        cases += gen_session_expiry(v, rng)
     cases += gen_random(v, rng, int(5000 * scale))
     cases += gen_qos2_flows(v, rng, int(4000 * scale))
     cases += gen_ctl_stress(v, rng, int(6000 * scale))
